@@ -19,7 +19,7 @@ LEVEL_TEXT = ("Coq theorems for every line of CDF values (any length, NaN allowe
 LEVEL_NOTE = ("trusted: hand model of the numpy/xarray primitives (fmax.accumulate, flip, interpolate_na, ffill/bfill, idxmax, combine_first) validated by "
               "correspondence; extraction; harness; binary64 rounding not modelled (the code's 'to rounding' caveat is covered by the comparison tolerance)")
 TECHNIQUE = "Coq proof over an extracted executable model + correspondence check"
-SITES = ["C07.piece", "C07.bscore"]
+SITES = ["C07.piece", "C07.bscore", "C17.fwd"]
 RULE = ("lines of 1-7 ordinates k/8 on increasing half-integer thresholds: non-decreasing, with plateaus, with one or several decreasing runs, with NaN "
         "(scattered, whole line, or placed so that every decrease sits across a NaN gap and no neighbouring pair decreases anywhere in the array; each "
         "such line also as an array of its own), 0-2 extra dimensions stored in shuffled order with the threshold dimension anywhere; new thresholds inside/outside/"
